@@ -358,10 +358,57 @@ def main(ctx):
                 for layout in T.LAYOUTS[1:]:
                     for w in ("sfile.write", "Recfile.write"):
                         units.append((descr, nrows, delim, voffs[0], w, "all", layout))
+    # the table handed over as a 2-d / 3-d array of records (one row per record, C order)
+    for ti, descr in enumerate(tables[:n1:6] + tables[n1:n1 + 6]):
+        for nrows in (4, 6, 3):
+            for delim in delims[:2]:
+                for layout in T.LAYOUTS_ND:
+                    for w in WRITERS:
+                        units.append((descr, nrows, delim, voffs[0], w, "all", layout))
     ctx.quiet_workers = True   # the C++ reader chats on stderr ("character does not match delim")
     ctx.lattice("text-roundtrip", units, one,
                 bounds=dict(tables=len(tables), one_field_tables=n1, rows=[1, 3], delims=[repr(x) for x in delims],
                             value_offsets=voffs, writers=WRITERS, readers=READERS_H + READERS_P))
+
+    # ------------------------------------------- text files with hostile user headers and field names
+    # the header of a text file is text too: multi-byte characters (the data start is a BYTE offset, not a character
+    # count), quotes, newlines, END lines and printf conversions in keys, values and field names, in front of a table
+    # whose first column is a byte string (a shifted data start shows in the very first cell)
+    TKEYS = ["a", "ключ", "Zoë", "END", "x y"]
+    TVALS = ["é", "Zoë ☺ λ", "END", "it's \"q\"\nnew", 1.5, "\nEND\n", "%s %d", ["Δλ", 1], b"\xff\x00"]
+    TNAMES = ["s", "numéro", "Δλ", "END", "ключ"]
+
+    def one_thdr(case, rec):
+        key, val, fname, delim, writer = case
+        d = np.zeros(3, dtype=[(fname, "S3"), ("n", "<i4"), ("x", ">f8")])
+        d[fname] = [b"ab", b"", b"xyz"]
+        d["n"] = [1, -2, 3]
+        d["x"] = [0.5, -1.25, 1e10]
+        fn = os.path.join(rec.tmp, "c04_hdr.rec")
+        if os.path.exists(fn):
+            os.unlink(fn)
+        hdr = {key: val}
+        try:
+            if writer == "sfile.write":
+                sfile.write(fn, d, delim=delim, header=hdr)
+            elif writer == "SFile.write":
+                with sfile.SFile(fn, "w", delim=delim) as sf:
+                    sf.write(d, header=hdr)
+            else:
+                esutil.io.write(fn, d, delim=delim, header=hdr)
+            out, h = sfile.read(fn, header=True)
+        except Exception as e:
+            return rec.fail(case, "header {%r: %r}, first field %r: %s raised %s: %s" % (key, val, fname, writer, type(e).__name__, str(e)[:160]))
+        m = check_result(d, out, h, delim)
+        if m:
+            return rec.fail(case, "header {%r: %r}, first field %r, %s: %s" % (key, val, fname, writer, m))
+        if key not in h or h[key] != val:
+            return rec.fail(case, "user key %r: read %r, written %r" % (key, h.get(key), val))
+        rec.ok(case, outcome="text-header-ok", nontrivial=True, calls=2)
+
+    thunits = [(k, v, nm, dl, w) for k in TKEYS for v in TVALS for nm in TNAMES for dl in (",", " ", "\t", "|") for w in ("sfile.write", "SFile.write", "io.write")
+               if (nm == "s" or (k == "a" and v == "é") or w == "sfile.write")]
+    ctx.lattice("text-headers", thunits, one_thdr, bounds=dict(keys=TKEYS, values=[repr(v) for v in TVALS], first_field_names=TNAMES, delims=[",", " ", "tab", "|"]))
 
     # ------------------------------------------- several text files open at once (process-wide state)
     # readers/writers of files with DIFFERENT delimiters alive in one process: format tables or reader
